@@ -54,6 +54,7 @@ def insert_quant(
       tensor.shape,
       schema_py_generated.TensorType.FLOAT32,
       transformation_input.subgraph,
+      shape_signature=tensor.shapeSignature,
   )
 
   # quantize the output tensor
